@@ -63,13 +63,17 @@ pub struct Sc {
     pub glue: bool,
     pub small_window: bool,
     pub sel: Vec<(u32, u32)>,
+    /// how the library-side writer writes and ends its stream (wt<->wt topology): 0 = SendStream::write_all + finish;
+    /// 1 = tokio's AsyncWrite on the SendStream (write_all, flush, shutdown); 2 = bidi only: BiStream::join(send, recv),
+    /// tokio's AsyncWrite on it (write_all, flush, shutdown), the BiStream kept alive until the reader is done
+    pub wmode: u8,
 }
 
 impl Sc {
     pub fn to_json(&self) -> Value {
         json!({
             "topo": format!("{:?}", self.topo), "client_opens": self.client_opens, "bidi": self.bidi, "reverse": self.reverse,
-            "len": self.len, "wparts": self.wparts, "rmode": match &self.rmode { ReadMode::Read(b) => json!(["read", b]), ReadMode::ReadExact(b) => json!(["read_exact", b]), ReadMode::AsyncRead => json!(["async_read", 0]), ReadMode::PollFill(b) => json!(["poll_fill", b]), ReadMode::TokioCopy => json!(["tokio_copy", 0]) },
+            "len": self.len, "wmode": self.wmode, "wparts": self.wparts, "rmode": match &self.rmode { ReadMode::Read(b) => json!(["read", b]), ReadMode::ReadExact(b) => json!(["read_exact", b]), ReadMode::AsyncRead => json!(["async_read", 0]), ReadMode::PollFill(b) => json!(["poll_fill", b]), ReadMode::TokioCopy => json!(["tokio_copy", 0]) },
             "nstreams": self.nstreams, "order": self.order, "content": self.content,
             "type_len": self.type_len, "sid_len": self.sid_len, "cuts": self.cuts, "settle_between": self.settle_between, "glue": self.glue,
             "small_window": self.small_window, "sel": self.sel,
@@ -109,6 +113,7 @@ impl Sc {
             glue: bl("glue"),
             small_window: bl("small_window"),
             sel: v["sel"].as_array().map(|a| a.iter().map(|p| (p[0].as_u64().unwrap() as u32, p[1].as_u64().unwrap() as u32)).collect()).unwrap_or_default(),
+            wmode: v["wmode"].as_u64().unwrap_or(0) as u8,
         }
     }
 }
@@ -208,6 +213,65 @@ async fn raw_read_all(mut r: wtransport::quinn::RecvStream) -> Result<Vec<u8>, S
 }
 
 /// writes the streams' payloads in the scenario's order, one `write_all` per part, then finishes them
+enum Writer {
+    Native(SendStream),
+    Tokio(SendStream),
+    Joined(wtransport::stream::BiStream),
+}
+
+impl Writer {
+    async fn write_all(&mut self, b: &[u8]) -> Result<(), String> {
+        use tokio::io::AsyncWriteExt;
+        match self {
+            Writer::Native(s) => s.write_all(b).await.map_err(|e| format!("write_all: {e:?}")),
+            Writer::Tokio(s) => AsyncWriteExt::write_all(s, b).await.map_err(|e| format!("AsyncWrite::write_all: {e:?}")),
+            Writer::Joined(s) => AsyncWriteExt::write_all(s, b).await.map_err(|e| format!("BiStream AsyncWrite::write_all: {e:?}")),
+        }
+    }
+    async fn end(&mut self) -> Result<(), String> {
+        use tokio::io::AsyncWriteExt;
+        match self {
+            Writer::Native(s) => s.finish().await.map_err(|e| format!("finish: {e:?}")),
+            Writer::Tokio(s) => {
+                s.flush().await.map_err(|e| format!("flush: {e:?}"))?;
+                s.shutdown().await.map_err(|e| format!("shutdown: {e:?}"))
+            }
+            Writer::Joined(s) => {
+                s.flush().await.map_err(|e| format!("flush: {e:?}"))?;
+                s.shutdown().await.map_err(|e| format!("shutdown: {e:?}"))
+            }
+        }
+    }
+}
+
+/// the same as `write_streams` through the chosen writer flavour; the writers are handed back so that they stay alive
+async fn write_streams_with(mut sends: Vec<Writer>, payloads: &[Vec<u8>], parts: &[usize], order: u8) -> Result<Vec<Writer>, String> {
+    let n = sends.len();
+    let mut offs = vec![0usize; n];
+    let idxs: Vec<usize> = if order == 2 { (0..n).rev().collect() } else { (0..n).collect() };
+    if order == 1 {
+        for p in parts {
+            for &i in &idxs {
+                let end = (offs[i] + p).min(payloads[i].len());
+                sends[i].write_all(&payloads[i][offs[i]..end]).await?;
+                offs[i] = end;
+            }
+        }
+    } else {
+        for &i in &idxs {
+            for p in parts {
+                let end = (offs[i] + p).min(payloads[i].len());
+                sends[i].write_all(&payloads[i][offs[i]..end]).await?;
+                offs[i] = end;
+            }
+        }
+    }
+    for &i in &idxs {
+        sends[i].end().await?;
+    }
+    Ok(sends)
+}
+
 async fn write_streams(mut sends: Vec<SendStream>, payloads: &[Vec<u8>], parts: &[usize], order: u8) -> Result<(), String> {
     let n = sends.len();
     let mut offs = vec![0usize; n];
@@ -297,17 +361,28 @@ pub async fn run(sc: Sc) -> Result<String, String> {
                     a_recv[i] = Some(r);
                 }
             }
-            let (writers, readers): (Vec<SendStream>, Vec<RecvStream>) = if sc.reverse {
-                (a_send.into_iter().map(|s| s.unwrap()).collect(), o_recv)
+            // (the receive halves on the writers' side are only needed for BiStream::join)
+            let (writers, readers, mut writers_recv): (Vec<SendStream>, Vec<RecvStream>, Vec<RecvStream>) = if sc.reverse {
+                (a_send.into_iter().map(|s| s.unwrap()).collect(), o_recv, if sc.bidi { a_recv.into_iter().map(|r| r.unwrap()).collect() } else { vec![] })
             } else {
-                (o_send, a_recv.into_iter().map(|r| r.unwrap()).collect())
+                (o_send, a_recv.into_iter().map(|r| r.unwrap()).collect(), o_recv)
             };
             let mut tasks = vec![];
             for r in readers {
                 tasks.push(tokio::spawn(read_all(r, sc.rmode.clone())));
             }
-            let w = within(60_000, write_streams(writers, &payloads, &sc.wparts, sc.order)).await.ok_or("writer did not finish within 60 s (virtual)")?;
-            w?;
+            let _alive: Vec<Writer>;
+            if sc.wmode == 0 {
+                let w = within(60_000, write_streams(writers, &payloads, &sc.wparts, sc.order)).await.ok_or("writer did not finish within 60 s (virtual)")?;
+                w?;
+                _alive = vec![];
+            } else {
+                let ws: Vec<Writer> = writers
+                    .into_iter()
+                    .map(|s| if sc.wmode == 2 && sc.bidi { Writer::Joined(wtransport::stream::BiStream::join((s, writers_recv.remove(0)))) } else { Writer::Tokio(s) })
+                    .collect();
+                _alive = within(60_000, write_streams_with(ws, &payloads, &sc.wparts, sc.order)).await.ok_or("writer did not finish within 60 s (virtual)")??;
+            }
             let mut total = 0;
             for (i, t) in tasks.into_iter().enumerate() {
                 let got = within(60_000, t).await.ok_or("reader did not see end-of-stream")?.map_err(|e| format!("reader task: {e:?}"))??;
@@ -602,6 +677,7 @@ pub fn scenarios(tier: Tier) -> Vec<Sc> {
         glue: false,
         small_window: true,
         sel: vec![],
+        wmode: 0,
     };
     // the six data directions
     let dirs: Vec<(bool, bool, bool)> = vec![(true, false, false), (false, false, false), (true, true, false), (true, true, true), (false, true, false), (false, true, true)];
@@ -632,6 +708,12 @@ pub fn scenarios(tier: Tier) -> Vec<Sc> {
                         continue;
                     }
                     out.push(Sc { client_opens: co, bidi: bi, reverse: rev, len, wparts: wp.clone(), rmode: rm.clone(), small_window: len <= 16384, content: (len % 3) as u8, ..base.clone() });
+                    // the tokio AsyncWrite flavours of the writer, on the first read mode
+                    if mi == 0 && (len <= 70 || thorough && pi == 0) {
+                        for wmode in if bi { vec![1u8, 2] } else { vec![1u8] } {
+                            out.push(Sc { client_opens: co, bidi: bi, reverse: rev, len, wparts: wp.clone(), rmode: rm.clone(), small_window: len <= 16384, content: (len % 3) as u8, wmode, ..base.clone() });
+                        }
+                    }
                 }
             }
         }
